@@ -122,7 +122,20 @@ class PlanSuite:
         for extra in KNOWN_PARAMS:
             cases.append(dict(extra, k="plan"))
             cases.append(dict(extra, k="towl", dev="evo", exec=exec_params(random.Random(1), extra["R"], extra["C"], big=True)))
+        cases += self.bad_requests()
         return cases
+
+    @staticmethod
+    def bad_requests():
+        base = {"xmin": "1/4", "xmax": "10", "R": 4, "C": 3, "stock": "20", "mode": "log", "vmax": {"shape": "scalar", "v": "1000"}, "min_transfer": "20"}
+        out = []
+        for f, v in (("xmin", "0"), ("xmin", "-1"), ("xmin", "nan"), ("xmax", "nan"), ("stock", "nan"), ("min_transfer", "nan"), ("xmin", "-inf"), ("stock", "inf")):
+            out.append(dict(base, k="badreq", **{f: v}))
+        out.append(dict(base, k="badreq", vmax={"shape": "scalar", "v": "nan"}))
+        out.append(dict(base, k="badreq", mode="linear", xmin="nan"))
+        out.append(dict(base, k="badreq", mode="linear", xmax="nan", stock="nan"))
+        out.append(dict(base, k="badreq", R=1, C=1, xmin="nan"))
+        return out
 
     def run(self, case):
         import numpy
@@ -133,6 +146,15 @@ class PlanSuite:
         vm = case["vmax"]
         kw["vmax"] = to_float(vm["v"]) if vm["shape"] == "scalar" else [to_float(x) for x in vm["v"]]
         N = case["R"] * case["C"]
+        if case.get("k") == "badreq":
+            # requests that cannot be met (NaN anywhere, log spacing down to xmin <= 0): outside the model, judged by the oracle
+            try:
+                plan = robotools.DilutionPlan(**kw)
+                xs = [float(v) for v in numpy.asarray(plan.x).flatten()]
+                vs = [float(v) for c, ds, src, vt in plan.instructions for v in vt]
+                return {"no_model": True, "err": None, "exc": None, "finite": bool(numpy.all(numpy.isfinite(xs + vs + [float(plan.v_stock), float(plan.v_diluent)])))}
+            except Exception as e:
+                return {"no_model": True, "err": errcode(e), "exc": type(e).__name__}
         # the ideal table as the implementation computes it (input of the model)
         try:
             if case["mode"] == "log":
@@ -221,6 +243,20 @@ class PlanSuite:
         }
         if progbase.rounding_guard_transfers(wl, lws):
             return {"drop": "rounding"}
+        if exc is None:
+            # the plan is a value: executing it again (other device, fresh labware of the same specification) gives the same result
+            lws2 = [progbase.build_labware(s) for s in ex["labware"]]
+            wl2 = progbase.build_worklist("fluent" if case["dev"] == "evo" else "evo", ex["wl"])
+            kw2 = dict(kwargs, worklist=wl2, stock=lws2[ex["stock"]], diluent=lws2[ex["diluent"]], dilution_plate=lws2[ex["plate"]])
+            if ex.get("dest") is not None:
+                kw2["destination_plate"] = lws2[ex["dest"]]
+            exc2 = None
+            try:
+                plan.to_worklist(**kw2)
+            except Exception as e:
+                exc2 = e
+            out["towl2"] = {"exc": type(exc2).__name__ if exc2 else None, "msg": str(exc2)[:200] if exc2 else None,
+                            "lw": [{"vols": progbase.vols_obs(lw)} for lw in lws2], "comp": [progbase.comp_obs(lw) for lw in lws2], "nrecs": len(wl2)}
         return out
 
     def emit(self, case, obs):
@@ -260,6 +296,8 @@ class PlanSuite:
     def kind(self, case, obs):
         if obs.get("err"):
             return f"{case['k']}:raised:{obs['exc']}"
+        if case["k"] == "badreq":
+            return "badreq:accepted"
         if case["k"] == "towl":
             return f"towl:{case['dev']}:" + (obs["towl"]["exc"] or "ok")
         return "plan:steps=%d" % obs["max_steps"]
@@ -267,6 +305,20 @@ class PlanSuite:
     # ---------------------------------------------------------------- oracle, from the property text
     def oracle_C14(self, case, obs):
         bad = []
+        if case.get("k") == "badreq":
+            if obs.get("err") is None:
+                return ["valueerror: a request that cannot be met (NaN argument or log spacing down to xmin <= 0) returned a plan"
+                        + ("" if obs.get("finite") else " with non-finite volumes or concentrations")]
+            if obs["exc"] != "ValueError":
+                return [f"valueerror: a request that cannot be met raised {obs['exc']}"]
+            return []
+        t2 = obs.get("towl2")
+        if t2 is not None:
+            t1 = obs["towl"]
+            if t2["exc"] is not None:
+                bad.append(f"repeat: executing the same plan a second time raised {t2['exc']}: {t2['msg']}")
+            elif [l["vols"] for l in t2["lw"]] != [l["vols"] for l in t1["lw"]] or t2["comp"] != t1["comp"]:
+                bad.append("repeat: executing the same plan a second time left other volumes or compositions than the first execution")
         vm = case["vmax"]
         C, R = case["C"], case["R"]
         vmaxl = [Fraction(vm["v"])] * C if vm["shape"] == "scalar" else [Fraction(x) for x in vm["v"]]
